@@ -108,8 +108,8 @@ def check(repo: Repo, rep: Report) -> None:
     rep.ob("P5-timers", ta, "emit count, then count += 1, every tick", len(inc) == 1 and len(em) == 1 and em[0].index < inc[0].index and not inc[0].ctx.branch,
            "periodic timers do not emit 0, 1, 2, ...")
     tp = repo.fn(TM, "observable_timer_timespan_and_period.subscribe")
-    ok = any(isinstance(s.node, ast.Return) and isinstance(s.node.value, ast.Call) and dotted(s.node.value.func) == "_scheduler.schedule_periodic"
-             and u(s.node.value.args[0]) == "period" and any(k.arg == "state" and u(k.value) == "0" for k in s.node.value.keywords) for s in sites(tp))
+    ok = any(isinstance(s.node, ast.Return) and isinstance(s.node.value, ast.Call) and isinstance(s.node.value.func, ast.Attribute)
+             and s.node.value.func.attr == "schedule_periodic" and u(s.node.value.args[0]) == "period" and any(k.arg == "state" and u(k.value) == "0" for k in s.node.value.keywords) for s in sites(tp))
     rep.ob("P5-timers", tp, "timer(p, p) = schedule_periodic(period, action, state=0)", ok, "the equal-period timer does not start its count at 0 on the periodic scheduler")
     iv = repo.fn(IV, "interval_")
     rep.ob("P5-timers", iv, "interval = timer(period, period, scheduler)", any(isinstance(s.node, ast.Return) and u(s.node.value) == "timer(period, period, scheduler)" for s in sites(iv)),
